@@ -199,6 +199,45 @@ def random_jobs(rng, n, sizes, events=True):
     return jobs
 
 
+def extreme_jobs(rng, events):
+    """default targets (every finite non-zero cell) on integer rasters holding their dtype's extreme values, and
+    explicit target lists given in descending / shuffled order or with duplicates: what counts as a target must
+    not depend on the dtype's width or on the order of target_values"""
+    jobs = []
+    ext = {"int8": [-128, 127], "int16": [-32768, 32767], "int32": [-2 ** 31, 2 ** 31 - 1], "int64": [-2 ** 63],
+           "uint8": [255], "uint16": [65535]}
+    for dt, es in ext.items():
+        for e in es:
+            for single in (True, False):
+                H, W = rng.choice([(3, 4), (4, 4), (2, 5)])
+                vals = [[0] * W for _ in range(H)]
+                r, c = rng.randrange(H), rng.randrange(W)
+                vals[r][c] = e
+                if not single:
+                    r2, c2 = rng.randrange(H), rng.randrange(W)
+                    if (r2, c2) != (r, c):
+                        vals[r2][c2] = 5
+                nt = sum(1 for row in vals for v in row if v != 0)
+                jobs.append({"H": H, "W": W, "vals": vals, "xs": list(range(W)), "ys": list(range(H))[::-1],
+                             "metric": "E", "max": None, "bound2": -1, "maxn": -1, "targets": [], "events": events,
+                             "exact": 1 if nt == 1 or min(H, W) <= 3 else 0, "dtype": dt, "tag": "extreme_" + dt})
+    for order in ("desc", "shuffled", "dup"):
+        for _ in range(3):
+            H, W = rng.choice([(3, 4), (4, 4), (3, 5)])
+            vals = [[rng.choice([1, 2, 3, 5, 8, 9]) for _ in range(W)] for _ in range(H)]
+            present = sorted({v for row in vals for v in row})
+            tv = rng.sample(present, min(len(present), rng.choice([2, 3])))
+            tv = sorted(tv, reverse=True)
+            if order == "shuffled":
+                rng.shuffle(tv)
+            if order == "dup":
+                tv = tv + tv[:1] + [77]
+            jobs.append({"H": H, "W": W, "vals": vals, "xs": list(range(W)), "ys": list(range(H))[::-1],
+                         "metric": rng.choice(["E", "M"]), "max": None, "bound2": -1, "maxn": -1, "targets": tv,
+                         "events": events, "exact": 1 if min(H, W) <= 3 else 0, "tag": "targets_" + order})
+    return jobs
+
+
 def world_jobs(rng, n):
     """great-circle rasters spanning most of the globe with few targets on the rim: on the sphere the farthest
     cell from a corner target is not the opposite corner, so any bound derived from the corners is too small"""
@@ -311,6 +350,7 @@ def run(ctx):
     # ---- T: seeded larger rasters with step traces
     n = ctx.pick(150, 3000)
     jobs = random_jobs(rng, n, [(4, 5), (5, 5), (6, 4), (5, 7), (7, 6), (8, 8)]) + world_jobs(rng, ctx.pick(24, 300))
+    jobs += extreme_jobs(rng, True)
     cases = core.run_jobs("prox_worker", jobs, env={"NUMBA_DISABLE_JIT": "1"})
     judge_and_handle(ctx, cases, "random_traces", "T", workers=4, parallel=4)
     for c in cases[:3]:
@@ -319,7 +359,7 @@ def run(ctx):
 
     # ---- compiled-mode sample (what users run): outputs judged the same way, no step events
     n = ctx.pick(10, 120)
-    jobs = random_jobs(rng, n, [(3, 4), (4, 4), (5, 6)], events=False)
+    jobs = random_jobs(rng, n, [(3, 4), (4, 4), (5, 6)], events=False) + extreme_jobs(rng, False)
     cases = core.run_jobs("prox_worker", jobs, nproc=16)
     judge_and_handle(ctx, cases, "compiled_sample", "compiled", workers=2)
 
